@@ -399,6 +399,10 @@ CLASSIFICATION = [
     (" gemini://host.example/docs/a.txt\r\n", True, "SecureGopherProtocol"), ("\x0bgemini://host.example/\r\n", True, "SecureGopherProtocol"),
     ("\u00a0host.example /docs/a.txt 0\r\n", False, "GopherProtocol"), ("host.example /docs/a.txt 0\u2003\r\n", False, "GopherProtocol"),
     ("host.example /docs/a.txt  0\r\n", False, "GopherProtocol"),
+    # Spartan request lines are ASCII: three words with a byte >= 0x80 in any of them are a Gopher selector
+    ("Informe A\u00f1o 2023\r\n", False, "GopherProtocol"), ("host.example /men\u00fa 0\r\n", False, "GopherProtocol"),
+    ("host.example /\udcff 0\r\n", False, "GopherProtocol"), ("host.example / 0\x85\r\n", False, "GopherProtocol"),
+    ("host.example / \u0664\u0662\r\n", False, "GopherProtocol"),
 ]
 
 
@@ -554,13 +558,16 @@ def classification_obligations(ctx, rep, rule="R02h"):
                     break
             if winner == "?":
                 undecided += 1
+                rep.extra.setdefault("classification_undecided_lines", []).append(f"{rel}: {line!r} at {P.name}")
                 continue
             n += 1
             if winner != want:
                 problems.append(f"the {'TLS' if tls else 'plaintext'} line {line!r} is claimed by {winner or 'no protocol'} instead of {want}")
-        rep.add(rule, f"{rel}: representative lines are claimed by the documented protocol [{n} lines]", not problems, rel,
-                "; ".join(problems[:3]) if problems else ("" if n >= 10 else f"only {n} lines could be evaluated by the walker"), key=f"{rule}|{rel}",
-                nontrivial=n >= 10)
+        applicable = sum(1 for _, _, want_ in CLASSIFICATION if want_ in names)
+        enough = n * 2 >= applicable
+        rep.add(rule, f"{rel}: representative lines are claimed by the documented protocol [{n} lines]", not problems and enough, rel,
+                "; ".join(problems[:3]) if problems else ("" if enough else f"only {n} of {applicable} lines could be evaluated by the walker"), key=f"{rule}|{rel}",
+                nontrivial=enough)
     rep.extra["classification_undecided"] = undecided
 
 
